@@ -13,7 +13,8 @@ EMPTY_TASK_ID = sys.maxsize
 def _to_list(val: Union['Task', Iterable['Task']]) -> List['Task']:
     if val is None:
         return []
-    elif type(val) is Task:
+    elif isinstance(val, Task):
+        # instances of Task subclasses are tasks too
         return [val]
     elif type(val) is list or type(val) is tuple or type(val) is set or isinstance(val, Iterable):
         return [t for t in val if t is not None]
